@@ -64,6 +64,12 @@ use serde::{Deserialize, Serialize};
 
 const CAP_MAX: usize = 8;
 
+/// Scalar functions for which some enumerated call *through the FFI* ends in a panic inside the
+/// `extern "C"` wrapper (which cannot unwind: the process aborts) although the native call returns.
+/// They are compared on declared attributes only (set C45_ABORTING=1 to include them anyway).
+const FOREIGN_CALL_ABORTS: [&str; 11] =
+    ["array_append", "array_prepend", "array_remove", "array_remove_all", "array_remove_n", "array_replace", "array_replace_all", "array_resize", "arrays_zip", "lpad", "rpad"];
+
 #[derive(Serialize, Deserialize, Clone, Debug)]
 #[serde(tag = "part")]
 enum Case {
@@ -154,6 +160,10 @@ fn scalar_task(udf: &Arc<datafusion::logical_expr::ScalarUDF>, cap: usize, only:
     }
     if engine::is_volatile(udf) {
         out.add("scalar.volatile_functions_declared_only", 1);
+        return out;
+    }
+    if FOREIGN_CALL_ABORTS.contains(&udf.name()) && std::env::var("C45_ABORTING").is_err() {
+        out.add("scalar.functions_declared_only_because_foreign_call_aborts", 1);
         return out;
     }
     let cfg = engine::cfg();
@@ -681,7 +691,9 @@ fn explore(ctx: &Ctx) {
             if want("sql") {
                 tasks.push(Task::Sql(d, q));
             }
-            if want("plan") {
+            // the plan part is opt-in (C45_PART=plan): on the unchanged tree some wrapped plans abort the process
+            // (a panic inside an `extern "C"` wrapper cannot unwind) and its statistics oracle is not final
+            if only_part.as_deref() == Some("plan") {
                 tasks.push(Task::Plan(d, q));
             }
         }
@@ -693,6 +705,7 @@ fn explore(ctx: &Ctx) {
             "aggregate": {"functions": na, "type_lists_per_function": cap_a, "row_alphabet": "{NULL, v1, v2}^arity", "max_rows": if thorough { "4 (1 arg) / 3" } else { "3 (1 arg) / 2" },
                 "configs": ["plain", "distinct", "ignore nulls + order by", "literal tail"]},
             "window": {"functions": nw, "type_lists_per_function": cap_w, "max_partition_rows": if thorough { "4 / 4 / 3 / 2 by arity" } else { "4 / 3 / 2 / 1 by arity" }, "configs": "reversed x ignore_nulls x literal tail"},
+            "scalar_functions_declared_only_because_foreign_call_aborts": FOREIGN_CALL_ABORTS,
             "tables": {"databases": ndb, "statements": nq, "scan": "4 projections x {no filter, 1 filter} x {no limit, limit 1}"},
         }),
     );
@@ -745,6 +758,7 @@ fn explore(ctx: &Ctx) {
     for (_, s) in samples_by_part {
         ctx.sample(s);
     }
+    ctx.count("foreign_calls_skipped_because_native_panicked", engine::NATIVE_PANICS_SKIPPED.load(std::sync::atomic::Ordering::Relaxed));
     ctx.count("hooks.markers_patched", hooks::PATCHED.load(std::sync::atomic::Ordering::Relaxed) as u64);
     ctx.set_extra("all_findings", json!(all));
 }
